@@ -483,7 +483,40 @@ unsafe extern "C" {
 #[unsafe(no_mangle)]
 pub unsafe extern "C" fn open64(path: *const std::ffi::c_char, flags: c_int, mode: c_uint) -> c_int {
     // SAFETY: the caller guarantees a valid C string.
-    let wanted = unsafe { std::ffi::CStr::from_ptr(path) }.to_bytes() == b"/proc/self/status";
+    let name = unsafe { std::ffi::CStr::from_ptr(path) }.to_bytes();
+    // the kernel's random devices, uptime and load: the machine speaking, not the input
+    if name == b"/dev/urandom" || name == b"/dev/random" || name == b"/proc/uptime" || name == b"/proc/loadavg" {
+        let plan = STATE
+            .try_with(|s| s.try_borrow().ok().filter(|s| s.installed).map(|s| (s.key, s.clock_base, s.clock_step_ns, s.pid)))
+            .unwrap_or(None);
+        if let Some((key, clock_base, clock_step, pid)) = plan {
+            let content: Vec<u8> = if name.starts_with(b"/dev/") {
+                let mut st = tail_seed(&key) ^ 0x7572_6e64;
+                let mut v: Vec<u8> = (0..65536).map(|_| (splitmix(&mut st) & 0xff) as u8).collect();
+                v[..16].copy_from_slice(&key);
+                v
+            } else if name == b"/proc/uptime" {
+                format!("{}.{:02} {}.00\n", clock_base % 10_000_000, clock_step % 100, clock_base % 777_777).into_bytes()
+            } else {
+                format!("{}.{:02} 0.50 0.25 1/{} {}\n", key[0] % 16, key[1] % 100, 100 + u32::from(key[2]), pid).into_bytes()
+            };
+            // SAFETY: raw system calls on descriptors owned by this function.
+            unsafe {
+                let fd = syscall(SYS_MEMFD_CREATE, c"gramsim-file".as_ptr(), 0) as c_int;
+                if fd >= 0 {
+                    write(fd, content.as_ptr().cast(), content.len());
+                    lseek(fd, 0, 0);
+                    let _ = STATE.try_with(|s| {
+                        if let Ok(mut s) = s.try_borrow_mut() {
+                            s.pid_reads += 1;
+                        }
+                    });
+                    return fd;
+                }
+            }
+        }
+    }
+    let wanted = name == b"/proc/self/status";
     if wanted {
         let rss = STATE
             .try_with(|s| s.try_borrow().ok().filter(|s| s.installed).map(|s| s.rss_kib))
